@@ -522,9 +522,18 @@ class Interp:
             handled = hook(self, node, it)
             if handled:
                 return
-        seq = self.iterate(it)
+        # CPython iterates a `list` LIVE (position + current length): a body that removes from / appends to the list it iterates
+        # skips or revisits elements.  Every other iterable is enumerated once (tuples, ranges, arrays of concrete length ...).
+        live = it if isinstance(it, list) else None
+        seq = None if live is not None else self.iterate(it)
         broke = False
-        for v in seq:
+        k = 0
+        while True:
+            cur = live if live is not None else seq
+            if k >= len(cur):
+                break
+            v = cur[k]
+            k += 1
             self.assign(node.target, v)
             try:
                 self.exec_block(node.body)
